@@ -104,8 +104,13 @@ def run(ctx, ncases=None):
             oracle_run += 1
             det = oracle_check(r)
             if det:
+                # the only recorded way this fails on the unchanged tree: unregistered code the callback cannot tell from a registered
+                # function (byte-identical, on one of its line numbers: F-C04a) — accepted only when the excess is exactly that code's events
+                import c04
+                nwin = sum(1 for st in case['steps'] if st[0] == 'disbc') + sum(1 for st in case['steps'] if st[0] == 'with_call')
+                status, _ = c04.oracle(r, max(nwin, 1))
                 ctx.fail('reported hits differ from the interpreter\'s own line events',
-                         {'finding_class': None, 'case': case, 'differences': det[:20]})
+                         {'finding_class': 'F-C04a' if status == 'alias' else None, 'case': case, 'differences': det[:20]})
         if getattr(ctx, 'driver_ok', True):
             diffs = corelib.compare_case(r)
             if diffs:
